@@ -50,6 +50,7 @@ package resp
 //@   props C03
 //@   requires h != nil
 //@   modifies h._all, mem
+//@   ensures h.disableNormalizing == old(h.disableNormalizing)
 //@   allocates
 //@   ensures err == nil ==> 0 <= n && n <= len(buf)
 //@   loop 0:
@@ -59,16 +60,18 @@ package resp
 //@   props C03
 //@   requires h != nil
 //@   modifies *
+//@   ensures h.disableNormalizing == old(h.disableNormalizing)
 //@   ghostset-at-entry parseArr = arr(buf)
 //@   ensures err == nil ==> 0 <= n && n <= len(buf)
 //@   loop 0:
-//@     invariant hsInv(s) && s.HLen + len(s.B) <= len(buf) && arr(s.B) == parseArr && len(s.B) <= len(buf)
+//@     invariant hsInv(s) && s.HLen + len(s.B) <= len(buf) && arr(s.B) == parseArr && len(s.B) <= len(buf) && h.disableNormalizing == old(h.disableNormalizing)
 
 // C02: the header scanner runs only after the completeness check succeeded.
 //@ func parse(h, buf) n, err
 //@   props C03, C02
 //@   requires h != nil
 //@   modifies *
+//@   ensures h.disableNormalizing == old(h.disableNormalizing)
 //@   ghostset-at-entry hdrComplete = false
 //@   ghostset after HeadersComplete#0: hdrComplete = result
 //@   assert @C02 before parseHeaders#0: hdrComplete
@@ -80,11 +83,15 @@ package resp
 //@   props C03
 //@   requires h != nil && r != nil
 //@   modifies *, r.pos, r.avail, r.failed
+//@   ensures h.disableNormalizing == old(h.disableNormalizing)
 
 //@ func ReadHeader(h, r) err
 //@   props C03
 //@   requires h != nil && r != nil
 //@   modifies *, r.pos, r.avail, r.failed
+//@   ensures h.disableNormalizing == old(h.disableNormalizing)
+//@   loop 0:
+//@     invariant h.disableNormalizing == old(h.disableNormalizing)
 
 // ---- C11: reading a response (client side), order of the steps ----
 // ReadHeaders: a second header block is read only after a first one was read without error (the 100-continue
@@ -92,9 +99,9 @@ package resp
 //@ ghost var rhOK int
 //@ func ReadHeaders(resp, r) err
 //@   props C11
-//@   abstract
-//@   noinline
-//@   modifies rhOK
+//@   requires resp != nil && r != nil
+//@   modifies *, rhOK, r.pos, r.avail, r.failed
+//@   top-ensures resp.Header.disableNormalizing == old(resp.Header.disableNormalizing)
 //@   ghostset-at-entry rhOK = 0
 //@   assert before ReadHeader#0: rhOK == 0
 //@   assert before ReadHeader#1: rhOK == 1
